@@ -639,6 +639,11 @@ fn ep_c16(s: &mut S, r: &mut Rng, maxc: usize, maxr: usize) {
                 s.text(slot);
             }
         }
+        if s.alive(slot) && r.chance(1, 2) {
+            let (c, rr) = s.vt(slot).size();
+            let t = format!("\x1b[{};{}H", r.range(1, rr), r.range(1, c));
+            s.feed_str(slot, &t, true);
+        }
         let l = gen::leave_alt(r);
         s.feed_str(slot, &l, true);
         s.text(slot);
@@ -802,12 +807,46 @@ fn ep_c20(s: &mut S, r: &mut Rng, maxc: usize, maxr: usize) {
             let t = gen::token(r, &GENERAL, c, rr);
             s.feed_str(slot, &t, true);
         } else {
-            let t = if r.chance(1, 2) { gen::control_string(r) } else { gen::unimplemented(r) };
+            let t = match r.n(5) {
+                0 | 1 => gen::control_string(r),
+                2 | 3 => gen::near_miss(r),
+                _ => gen::unimplemented(r),
+            };
             if r.chance(1, 4) {
                 s.feed_chars(slot, &t);
                 s.feed_str(slot, "", true);
             } else {
                 s.feed_str(slot, &t, true);
+            }
+        }
+    }
+}
+
+/// Bounded-exhaustive: every CSI final 0x40..0x7e x {no prefix, ?, <, =, >} x {no intermediate, SP, !, $}
+/// x parameter shapes, each as ONE feed_str call on a terminal in a non-default state.  Whether a
+/// sequence is inert is decided by the specification (TLC), not here.
+fn ep_c20x(s: &mut S, r: &mut Rng, _maxc: usize, _maxr: usize, shard: u64, shards: u64) {
+    let params = ["", "4", "20", "1", "6", "7", "25", "1047", "1049", "2", "3", "5", "0", "1;1", "4;20", "8;2;2", "65535"];
+    let prefixes = ["", "?", "<", "=", ">"];
+    let inters = ["", " ", "!", "$", "#"];
+    let mut k = 0u64;
+    for fin in 0x40u8..=0x7e {
+        for pre in prefixes {
+            for int in inters {
+                k += 1;
+                if k % shards != shard {
+                    continue;
+                }
+                s.episode("C20X");
+                let slot = s.new_vt(r.range(3, 6), r.range(3, 4), 0);
+                s.feed_str(slot, "\x1b[2;3r\x1b[?25l\x1b[31mab\r\ncd\x1b[2;2H", true);
+                for p in params {
+                    if !s.alive(slot) {
+                        break;
+                    }
+                    let t = format!("\x1b[{}{}{}{}", pre, p, int, fin as char);
+                    s.feed_str(slot, &t, true);
+                }
             }
         }
     }
@@ -841,6 +880,15 @@ pub fn run(args: &Args) -> i32 {
     let mut r = Rng::new(seed.wrapping_mul(0x2545F4914F6CDD1D) ^ drv.bytes().fold(0u64, |a, b| a.wrapping_mul(131).wrapping_add(b as u64)));
     if drv == "C03P" {
         return crate::sweep::parser_streams(args, &mut r);
+    }
+    if drv == "C20X" {
+        // --episodes doubles as "shard count", --seed low digits as the shard index
+        let shards = args.num("shards", 1);
+        let shard = args.num("shard", 0);
+        ep_c20x(&mut s, &mut r, maxc, maxr, shard, shards);
+        s.out.flush().unwrap();
+        println!("{{\"driver\":\"C20X\",\"seed\":{},\"episodes\":{},\"events\":{},\"panics\":{},\"chars\":{},\"distinct_nontrivial\":{}}}", seed, s.episodes, s.events, s.panics, s.chars_fed, s.distinct.len());
+        return 0;
     }
     for _ in 0..episodes {
         match drv.as_str() {
